@@ -37,8 +37,13 @@ func (v *inputFieldDefaultInjectionVisitor) EnterDocument(operation, definition 
 func (v *inputFieldDefaultInjectionVisitor) EnterVariableDefinition(ref int) {
 	v.variableName = v.operation.VariableDefinitionNameString(ref)
 
-	variableVal, _, _, err := jsonparser.Get(v.operation.Input.Variables, v.variableName)
+	variableVal, variableValType, _, err := jsonparser.Get(v.operation.Input.Variables, v.variableName)
 	if errors.Is(err, jsonparser.KeyPathNotFoundError) {
+		return
+	}
+	if err == nil && variableValType == jsonparser.String {
+		// variableVal is the unquoted content of the string, it must not be read as JSON;
+		// a string is neither an input object nor a list: variablesvalidation reports it
 		return
 	}
 	if err != nil {
@@ -82,12 +87,16 @@ func (v *inputFieldDefaultInjectionVisitor) recursiveInjectInputFields(inputObje
 		isTypeScalarOrEnum := v.isScalarTypeOrExtension(valDef.Type, v.definition)
 		hasDefault := valDef.DefaultValue.IsDefined
 
-		varVal, _, _, err := jsonparser.Get(varValue, fieldName)
+		varVal, varValType, _, err := jsonparser.Get(varValue, fieldName)
 		if err != nil && !errors.Is(err, jsonparser.KeyPathNotFoundError) {
 			v.StopWithInternalErr(err)
 			return nil, false, err
 		}
 		existsInVal := !errors.Is(err, jsonparser.KeyPathNotFoundError)
+		if existsInVal && varValType == jsonparser.String {
+			// varVal is the unquoted content of the string, it must not be read as JSON
+			continue
+		}
 
 		if !isTypeScalarOrEnum {
 			var valToUse []byte
